@@ -86,6 +86,7 @@ func (rp *Republisher) Close() error {
 func (rp *Republisher) Update(c cid.Cid) {
 	select {
 	case <-rp.update:
+		verifRepubPoint("update.drained")
 		select {
 		case rp.update <- c:
 		default:
